@@ -65,7 +65,7 @@ def run(ctx, P):
     for prog in programs(P["first"], P["L"], P.get("heavy")):
         lab = "[" + ",".join(prog) + "]"
         src = clone(cs)
-        hx = Hexital("hx", src[: n - pending0], [build_any(spec), build("WMA", dict(period=5))])
+        hx = Hexital("hx", src[: n - pending0], [build_any(spec), build("WMA", dict(period=2, name_suffix="by"))])
         hx.calculate()
         pos = n - pending0
         registered, clean = True, True
@@ -128,7 +128,7 @@ def run(ctx, P):
         # convergence: a final calculate() never raises and leaves the batch state for the current candles
         hx.calculate()
         cur = clone(cs)[:pos]
-        members = [build_any(spec), build("WMA", dict(period=5))] if registered else [build("WMA", dict(period=5))]
+        members = [build_any(spec), build("WMA", dict(period=2, name_suffix="by"))] if registered else [build("WMA", dict(period=2, name_suffix="by"))]
         batch = Hexital("b", cur, members)
         batch.calculate()
         for nm in batch.indicators:
@@ -145,7 +145,7 @@ def run(ctx, P):
 
 
 META = dict(
-    bounds=dict(quick="all operation sequences of length <= 2 over {append, calculate, calculate(X), purge, purge(X), recalculate, recalculate(X), calculate_index(X, last / -1 / -2), remove_indicator(X), add_indicator(X)} for the non-branching indicators (value-branching ones: 5 first ops x 5 second ops), on a Hexital with X and a bystander WMA(5); n = warm-up+3..4 candles, 2 of them pending for append",
+    bounds=dict(quick="all operation sequences of length <= 2 over {append, calculate, calculate(X), purge, purge(X), recalculate, recalculate(X), calculate_index(X, last / -1 / -2), remove_indicator(X), add_indicator(X)} for the non-branching indicators (value-branching ones: 5 first ops x 5 second ops), on a Hexital with X and a bystander WMA(2) named WMA_2_by; n = warm-up+3..4 candles, 2 of them pending for append",
                 thorough="length <= 3 (third op from 8), n+1, periods 2 and 3"),
     stubs=["exact real arithmetic, uninterpreted rounding and products"],
     assumptions=["calculate_index is only issued when X's readings are complete (the property's precondition)"],
